@@ -72,12 +72,32 @@ def check_codec_width(ctx: Ctx):
             ctx.undecided("R09.1", f, f.node, f"{f.qual}:dtype={IN}", f"pair encoding not evaluable: {e}")
             continue
         seen = set()
-        for it in its:
+        from ..linarith import constraint_slack, decide_leq
+        from .c04 import infeasible
+
+        for out_, it in zip(outs, its):
+            # constraints of this path on the label values (e.g. the tests of a 'smallest fitting
+            # dtype' computation); facts about dtypes/shapes do not constrain values
+            path_slacks = []
+            for _nd, v_, d_ in out_.decisions:
+                pv_ = getattr(v_, "pv", None)
+                if isinstance(pv_, tuple) and len(pv_) == 3 and isinstance(pv_[0], str) and pv_[0] in ("<", "<=", ">", ">=", "==", "!="):
+                    path_slacks += constraint_slack(pv_[0], pv_[1], pv_[2], d_)
+            dom = [Poly.const(L) - q for q in [P, R, m] + list(getattr(it.root, "max_polys", []))]
+            if path_slacks and infeasible(dom + path_slacks):
+                continue
+            ptxt = "; ".join(f"{norm(nd) if isinstance(nd, ast.AST) else '?'}={d}" for nd, v_, d in out_.decisions if getattr(v_, "pv", None) is not None and len(getattr(v_, "pv")) == 3)[:200]
             for evn in it.root.events:
-                key = (evn.op, repr(evn.result), evn.cont)
+                key = (evn.op, repr(evn.result), evn.cont, ptxt)
                 if key in seen:
                     continue
                 seen.add(key)
+                if path_slacks and evn.cont in CAP and evn.cont not in ("py", "nps-valuebased") and evn.result.nonneg_coeffs():
+                    construct = f"{f.qual}:dtype={IN}:{evn.op}:{norm(evn.node) if isinstance(evn.node, ast.AST) else ''}"[:160] + f"[{ptxt}]"
+                    ok_, w_ = decide_leq(evn.result, CAP[evn.cont], dom + path_slacks)
+                    n_ev += 1
+                    ctx.decide("R09.1", f, evn.node, construct, f"{evn.result!r} fits container {evn.cont} (max {CAP[evn.cont]}) under the path's own tests", ok_, {"valuation": w_, "container": evn.cont, "labels_up_to": L, "path": ptxt} if ok_ is not True else None)
+                    continue
                 if evn.cont in ("py", "nps-valuebased"):
                     continue
                 # f64: a numpy uint64 scalar combined with a Python int is computed in float64
